@@ -398,6 +398,27 @@ def hashable_term(t) -> bool:
     return False
 
 
+def twin(v):
+    """A value that is == v (and hashes alike) but is observably different: exponent, sign of zero, UTC offset."""
+    if isinstance(v, decimal.Decimal) and v.is_finite():
+        s = str(v)
+        if "E" not in s.upper():
+            return decimal.Decimal(s + ("0" if "." in s else ".0"))
+    if isinstance(v, float) and v == 0.0:
+        return -v
+    if isinstance(v, (datetime.datetime, datetime.time)) and v.tzinfo is not None and type(v) in (datetime.datetime, datetime.time):
+        off = v.utcoffset() if isinstance(v, datetime.datetime) else v.tzinfo.utcoffset(None)
+        other = tz(2) if off != datetime.timedelta(hours=2) else tz(-7)
+        if isinstance(v, datetime.datetime):
+            try:
+                return v.astimezone(other)
+            except (OverflowError, ValueError):
+                return None
+        d = datetime.datetime.combine(datetime.date(2000, 1, 2), v).astimezone(other)
+        return d.timetz() if d.date() == datetime.date(2000, 1, 2) else None
+    return None
+
+
 def values(t: dict, env: Env, rng, n: int = 4, depth: int = 0) -> list:
     """Up to n valid values of type term t (boundary-biased pools, recursive composition)."""
     k = t["k"]
@@ -431,6 +452,9 @@ def values(t: dict, env: Env, rng, n: int = 4, depth: int = 0) -> list:
         if ks and vs:
             try:
                 outs.append({ks[0]: vs[0]})
+                tw = twin(ks[0])
+                if tw is not None:          # an equal key that prints differently, right after the first
+                    outs.append({tw: vs[0]})
                 outs.append({kk: vs[i % len(vs)] for i, kk in enumerate(ks)})
             except TypeError:
                 pass
